@@ -1260,9 +1260,25 @@ fn room_event(r: &mut Rng, g: &Gen, redact_as: Option<&RedactionRules>, content_
     }
     match redact_as {
         Some(rules) => {
-            if let Some(CanonicalJsonValue::Object(mut c)) = to_canonical(&content) {
-                let _ = redact_content_in_place(&mut c, rules, g.ty.as_str());
-                content = canonical_to_value(&CanonicalJsonValue::Object(c));
+            // leftover members in the content of a redacted event (a server that redacts by newer or laxer
+            // rules, an extension key): unknown members never cause failure (seed4 C18-1)
+            let leftover = r.below(6);
+            if leftover != 0 {
+                if let Some(CanonicalJsonValue::Object(mut c)) = to_canonical(&content) {
+                    let _ = redact_content_in_place(&mut c, rules, g.ty.as_str());
+                    content = canonical_to_value(&CanonicalJsonValue::Object(c));
+                }
+            }
+            if let Some(c) = content.as_object_mut() {
+                match leftover {
+                    1 => {
+                        c.insert("org.example.extra".to_owned(), json!({"a": [1, "x"]}));
+                    }
+                    2 => {
+                        c.insert("m.relates_to".to_owned(), json!({"rel_type": "m.reference", "event_id": EVENTS[0]}));
+                    }
+                    _ => {}
+                }
             }
             let mut u = json!({"redacted_because": redaction_event(r, false)});
             if r.chance(1, 3) {
